@@ -105,6 +105,26 @@ def run(tier, seed, broken_proof=False):
                 k = rng.randrange(1, n)
                 opsl.append(("M", sorted(rng.sample(range(n), k))))
         opsl.append(("C", gen_formula(rng, n, 1, 0.05)))
+        # twins: one deep context around different cores, asked of the same object one after the other
+        # (anything remembered per object between calls must be keyed by the whole formula)
+        depth = rng.randrange(3, 8)
+        ctx = [(rng.choice("&|"), gen_formula(rng, n, 0, 0.1), rng.random() < 0.5, rng.random() < 0.25) for _ in range(depth)]
+
+        def plug(core):
+            f = core
+            for (o, side, left, neg) in ctx:
+                f = (o, side, f) if left else (o, f, side)
+                if neg:
+                    f = common.Not(common.Not(f))
+            return f
+
+        cores = [gen_formula(rng, n, 1, 0.0) for _ in range(3)]
+        for core in cores:
+            opsl.append(("F", plug(core)))
+        for core in cores[:2]:
+            opsl.append(("C", plug(core)))
+        opsl.append(("A", plug(cores[0]), plug(cores[1])))
+        opsl.append(("A", plug(cores[1]), plug(cores[0])))
         opsl.append(("T",))
         c["ops"] = opsl
         cases.append(c)
@@ -207,7 +227,7 @@ def run(tier, seed, broken_proof=False):
             samples.append({"sig": c["sig"], "ranks": c["table"], "ops": [[op[0]] + [to_cl(x, c["sig"]) if isinstance(x, tuple) else x for x in op[1:]] for op in c["ops"]], "results": res})
     return {"evaluations": evals, "distinct_nontrivial": len(nontriv),
             "rule": "random total rankings over 1..%d atoms (rank ranges 0..1 up to 0..9, asymmetric), 20%% System Z / c-representation objects; per ranking: 3 formula ranks, 3 acceptance tests, 2 marginalisations "
-                    "to proper atom subsets, conditionalisation (existing and computed), ranks2tpo, tpo2ranks with the layers' own ranks or a random strictly increasing numbering; non-trivial = operation on a non-constant ranking" % (5 if tier == "quick" else 6),
+                    "to proper atom subsets, conditionalisation (existing and computed), twins (3 formula ranks, 2 conditionalisations, 2 acceptance tests on formulas sharing a context of 3..7 connectives around different cores), ranks2tpo, tpo2ranks with the layers' own ranks or a random strictly increasing numbering; non-trivial = operation on a non-constant ranking" % (5 if tier == "quick" else 6),
             "samples": samples, "strata": dict(strata), "traces_validated_against_impl": evals, "violations": violations[:20]}
 
 
